@@ -110,6 +110,7 @@ struct Session {
     cmds: Vec<String>,   // commands (texts)
     kinds: Vec<&'static str>,
     cons_cmds: Option<Vec<Cmd>>, // constructor-only sessions: the structured commands
+    rules: Vec<Rule>,            // rule sessions: the source rules (declared at the end of `header`)
 }
 
 fn sort_txt(s: &Sort) -> &'static str {
@@ -412,7 +413,7 @@ fn gen_session(r: &mut Rng, with_delete: bool) -> Session {
     header.push("(rule ((= x (W y i))) ((Mark x)) :ruleset marks)".to_string());
     header.push("(ruleset rws)".to_string());
     header.push("(rewrite (M i x) (W x i) :subsume :ruleset rws)".to_string());
-    Session { p, header, cmds, kinds, cons_cmds: None }
+    Session { p, header, cmds, kinds, cons_cmds: None, rules: vec![] }
 }
 
 /// constructor-only sessions: inserts and unions of ground terms (the fragment of the theorems)
@@ -491,7 +492,162 @@ fn gen_cons_session(r: &mut Rng) -> Session {
     let header: Vec<String> = p.header().lines().map(|s| s.to_string()).collect();
     let cmds: Vec<String> = cs.iter().map(|c| p.cmd_text(c)).collect();
     let kinds = cs.iter().map(|c| if matches!(c, Cmd::Act(Action::Union(..))) { "union" } else { "insert" }).collect();
-    Session { p, header, cmds, kinds, cons_cmds: Some(cs) }
+    Session { p, header, cmds, kinds, cons_cmds: Some(cs), rules: vec![] }
+}
+
+/// rule sessions: constructor-only signature, user rules (constructor patterns in the body,
+/// insertions and unions in the head), ground inserts / unions and `(run n)`: cases for the encoded
+/// user-rule model (coq/Encoding/URules.v)
+fn gen_rule_session(r: &mut Rng) -> Session {
+    let mut decls = Vec::new();
+    let mut nullary = vec![];
+    for i in 0..r.range(2, 3) {
+        nullary.push(decls.len());
+        decls.push(Decl { name: format!("K{i}"), kind: Kind::Ctor, args: vec![] });
+    }
+    let unary = vec![decls.len()];
+    decls.push(Decl { name: "F".into(), kind: Kind::Ctor, args: vec![Sort::S] });
+    let binary = vec![decls.len()];
+    decls.push(Decl { name: "H".into(), kind: Kind::Ctor, args: vec![Sort::S, Sort::S] });
+    let mut num = None;
+    if r.chance(1, 3) {
+        num = Some(decls.len());
+        decls.push(Decl { name: "N".into(), kind: Kind::Ctor, args: vec![Sort::I] });
+    }
+    let mut mixed = None;
+    if r.chance(1, 3) {
+        mixed = Some(decls.len());
+        decls.push(Decl { name: "M".into(), kind: Kind::Ctor, args: vec![Sort::I, Sort::S] });
+    }
+    let decls_c = decls.clone();
+    // ---- rules ----
+    // S variables v0..v3, i64 variables v10, v11
+    fn rpat(r: &mut Rng, decls: &[Decl], depth: usize, svars: &mut Vec<usize>, ivars: &mut Vec<usize>) -> Pat {
+        let f = r.below(decls.len());
+        let args = decls[f]
+            .args
+            .iter()
+            .map(|a| {
+                if *a == Sort::I {
+                    let v = 10 + r.below(2);
+                    if !ivars.contains(&v) {
+                        ivars.push(v);
+                    }
+                    Pat::Var(v)
+                } else if depth > 0 && r.chance(1, 3) {
+                    rpat(r, decls, depth - 1, svars, ivars)
+                } else {
+                    let v = r.below(4);
+                    if !svars.contains(&v) {
+                        svars.push(v);
+                    }
+                    Pat::Var(v)
+                }
+            })
+            .collect();
+        Pat::App(f, args)
+    }
+    fn hpat(r: &mut Rng, decls: &[Decl], depth: usize, svars: &[usize], ivars: &[usize]) -> Option<Pat> {
+        if depth == 0 || r.chance(1, 2) {
+            if !svars.is_empty() {
+                return Some(Pat::Var(*r.pick(svars)));
+            }
+        }
+        for _ in 0..6 {
+            let f = r.below(decls.len());
+            if decls[f].args.iter().any(|a| *a == Sort::I) && ivars.is_empty() {
+                continue;
+            }
+            let mut args = Vec::new();
+            for a in &decls[f].args {
+                if *a == Sort::I {
+                    args.push(Pat::Var(*r.pick(ivars)));
+                } else {
+                    args.push(hpat(r, decls, depth.saturating_sub(1), svars, ivars)?);
+                }
+            }
+            return Some(Pat::App(f, args));
+        }
+        None
+    }
+    let mut rules: Vec<Rule> = Vec::new();
+    for _ in 0..r.range(1, 3) {
+        let mut svars = Vec::new();
+        let mut ivars = Vec::new();
+        let mut body = Vec::new();
+        for _ in 0..r.range(1, 2) {
+            let p = rpat(r, &decls_c, 1, &mut svars, &mut ivars);
+            if r.chance(3, 4) {
+                let x = if r.chance(1, 4) && !svars.is_empty() { *r.pick(&svars) } else { 4 + r.below(2) };
+                if !svars.contains(&x) {
+                    svars.push(x);
+                }
+                body.push(Fact::Eq(x, p));
+            } else {
+                body.push(Fact::Pat(p));
+            }
+        }
+        let mut head = Vec::new();
+        for _ in 0..r.range(1, 2) {
+            if r.chance(3, 4) {
+                if let (Some(a), Some(b)) = (hpat(r, &decls_c, 2, &svars, &ivars), hpat(r, &decls_c, 2, &svars, &ivars)) {
+                    head.push(Action::Union(a, b));
+                }
+            } else if let Some(a) = hpat(r, &decls_c, 2, &svars, &ivars) {
+                if matches!(a, Pat::App(..)) {
+                    head.push(Action::Expr(a));
+                }
+            }
+        }
+        if !head.is_empty() {
+            rules.push(Rule { body, head });
+        }
+    }
+    if rules.is_empty() {
+        let h = binary[0];
+        rules.push(Rule { body: vec![Fact::Eq(4, Pat::App(h, vec![Pat::Var(0), Pat::Var(1)]))], head: vec![Action::Union(Pat::Var(4), Pat::App(h, vec![Pat::Var(1), Pat::Var(0)]))] });
+    }
+    let mut g = Gen { r, bias: Bias::C01, p: Program { decls, cmds: vec![], expect: vec![] }, nullary, unary, binary, num, funcs: vec![], rels: vec![], nomerge: None, pending: vec![], batch_mode: false };
+    let mut cs = Vec::new();
+    let n = g.r.range(3, 8);
+    let mut ran = false;
+    for i in 0..n {
+        let k = g.r.below(100);
+        let d = g.r.range(0, 2);
+        let wrap = |g: &mut Gen, t: Pat| -> Pat {
+            match mixed {
+                Some(m) if g.r.chance(1, 4) => Pat::App(m, vec![Pat::Int(g.r.below(2) as i64), t]),
+                _ => t,
+            }
+        };
+        let c = if (k < 25 && i >= 2) || (i + 1 == n && !ran) {
+            ran = true;
+            Cmd::Run(g.r.range(1, 2))
+        } else if k < 65 {
+            let t = g.term(d);
+            Cmd::Act(Action::Expr(wrap(&mut g, t)))
+        } else {
+            let a = g.term(d);
+            let b = g.term(d);
+            Cmd::Act(Action::Union(wrap(&mut g, a), b))
+        };
+        cs.push(c);
+    }
+    let p = g.p.clone();
+    let mut header: Vec<String> = p.header().lines().map(|s| s.to_string()).collect();
+    for rl in &rules {
+        header.push(p.cmd_text(&Cmd::Rule(rl.clone())));
+    }
+    let cmds: Vec<String> = cs.iter().map(|c| p.cmd_text(c)).collect();
+    let kinds = cs
+        .iter()
+        .map(|c| match c {
+            Cmd::Act(Action::Union(..)) => "union",
+            Cmd::Run(_) => "run",
+            _ => "insert",
+        })
+        .collect();
+    Session { p, header, cmds, kinds, cons_cmds: Some(cs), rules }
 }
 
 // ------------------------------------------------------------------------------------------------
@@ -1103,6 +1259,156 @@ fn encoded_rules_coq(p: &Program, header: &[String]) -> Option<(String, String)>
     ))
 }
 
+/// The user rules the real encoder emits for the rules declared in `header` (term mode), as Gallina
+/// `urule` values (coq/Encoding/URules.v), in declaration order. None = an emitted rule does not
+/// have the instrumented shape (view atoms, variable equalities, add_term_and_view triples, union
+/// requests) any more.
+fn encoded_user_rules_coq(p: &Program, header: &[String]) -> Option<Vec<String>> {
+    let mut eg = mk(Mode::Term);
+    let cmds = eg.resolve_program(None, &header.join("\n")).ok()?;
+    let parsed: Vec<Sx> = cmds.iter().flat_map(|c| parse_sx(&c.to_string())).collect();
+    let atom = |x: &Sx| -> Option<String> {
+        match x {
+            Sx::A(a) => Some(a.clone()),
+            _ => None,
+        }
+    };
+    let ctor_ix = |name: &str| p.decls.iter().position(|d| d.name == name);
+    let mut views: std::collections::HashMap<String, usize> = std::collections::HashMap::new(); // view table -> ctor
+    let mut uf: Option<String> = None;
+    for c in &parsed {
+        let Sx::L(l) = c else { continue };
+        let Some(h) = l.first().and_then(atom) else { continue };
+        if h == "sort" {
+            if let Some(k) = l.iter().position(|x| atom(x).as_deref() == Some(":internal-uf")) {
+                uf = Some(atom(&l[k + 1])?);
+            }
+        } else if h == "function" {
+            if let Some(k) = l.iter().position(|x| atom(x).as_deref() == Some(":internal-term-constructor")) {
+                views.insert(atom(&l[1])?, ctor_ix(&atom(&l[k + 1])?)?);
+            }
+        }
+    }
+    let uf = uf?;
+    let mut out = Vec::new();
+    for c in &parsed {
+        let Sx::L(l) = c else { continue };
+        if l.first().and_then(atom).as_deref() != Some("rule") {
+            continue;
+        }
+        if l.iter().any(|x| atom(x).as_deref() == Some(":ruleset")) {
+            continue; // maintenance rules live in their own rulesets; user rules in the default one
+        }
+        let (Sx::L(body), Sx::L(acts)) = (&l[1], &l[2]) else { return None };
+        let mut vars: std::collections::HashMap<String, usize> = std::collections::HashMap::new();
+        let mut var = |name: &str| -> Option<usize> {
+            // literals are outside the modelled fragment
+            if name.parse::<i64>().is_ok() || name.starts_with('"') {
+                return None;
+            }
+            let n = vars.len();
+            Some(*vars.entry(name.to_string()).or_insert(n))
+        };
+        let mut atoms = Vec::new();
+        let mut eqs = Vec::new();
+        for f in body {
+            let Sx::L(fl) = f else { return None };
+            if atom(&fl[0]).as_deref() != Some("=") || fl.len() != 3 {
+                return None;
+            }
+            match (&fl[1], &fl[2]) {
+                (Sx::A(x), Sx::A(y)) => {
+                    let a = var(x)?;
+                    let b = var(y)?;
+                    eqs.push(format!("({a}, {b})"));
+                }
+                (Sx::A(d), Sx::L(call)) => {
+                    let f = *views.get(&atom(&call[0])?)?;
+                    let mut vs = Vec::new();
+                    for a in &call[1..] {
+                        vs.push(var(&atom(a)?)?);
+                    }
+                    vs.push(var(d)?);
+                    atoms.push(format!("mkAtom {} {}", 2 + 2 * f, coq_nat_list(&vs)));
+                }
+                _ => return None,
+            }
+        }
+        // (set (UF (ordering-max a b) (ordering-min a b)) ()) -> (a, b)
+        let uf_set = |x: &Sx| -> Option<(String, String)> {
+            let Sx::L(al) = x else { return None };
+            if al.len() != 3 || atom(&al[0]).as_deref() != Some("set") || !matches!(&al[2], Sx::L(u) if u.is_empty()) {
+                return None;
+            }
+            let Sx::L(cl) = &al[1] else { return None };
+            if cl.len() != 3 || atom(&cl[0]).as_deref() != Some(uf.as_str()) {
+                return None;
+            }
+            let (Sx::L(mx), Sx::L(mn)) = (&cl[1], &cl[2]) else { return None };
+            if mx.len() != 3 || mn.len() != 3 || atom(&mx[0]).as_deref() != Some("ordering-max") || atom(&mn[0]).as_deref() != Some("ordering-min") {
+                return None;
+            }
+            let (a, b, a2, b2) = (atom(&mx[1])?, atom(&mx[2])?, atom(&mn[1])?, atom(&mn[2])?);
+            if a != a2 || b != b2 {
+                return None;
+            }
+            Some((a, b))
+        };
+        let mut actions = Vec::new();
+        let mut i = 0;
+        while i < acts.len() {
+            let Sx::L(al) = &acts[i] else { return None };
+            let h = atom(&al[0])?;
+            if h == "let" && al.len() == 3 && i + 2 < acts.len() {
+                // (let v (f args)) (set (fView args v) ()) (set (UF (max v v) (min v v)) ())
+                let v = atom(&al[1])?;
+                let Sx::L(call) = &al[2] else { return None };
+                let fname = atom(&call[0])?;
+                let f = ctor_ix(&fname)?;
+                let mut args = Vec::new();
+                let mut arg_names = Vec::new();
+                for a in &call[1..] {
+                    let n = atom(a)?;
+                    args.push(var(&n)?);
+                    arg_names.push(n);
+                }
+                let Sx::L(sl) = &acts[i + 1] else { return None };
+                if sl.len() != 3 || atom(&sl[0]).as_deref() != Some("set") || !matches!(&sl[2], Sx::L(u) if u.is_empty()) {
+                    return None;
+                }
+                let Sx::L(vc) = &sl[1] else { return None };
+                if views.get(&atom(&vc[0])?) != Some(&f) || vc.len() != arg_names.len() + 2 {
+                    return None;
+                }
+                for (k, n) in arg_names.iter().enumerate() {
+                    if atom(&vc[1 + k]).as_deref() != Some(n.as_str()) {
+                        return None;
+                    }
+                }
+                if atom(&vc[vc.len() - 1]).as_deref() != Some(v.as_str()) {
+                    return None;
+                }
+                let (a, b) = uf_set(&acts[i + 2])?;
+                if a != v || b != v {
+                    return None;
+                }
+                let vv = var(&v)?;
+                actions.push(format!("UNode {vv} {f} {}", coq_nat_list(&args)));
+                i += 3;
+            } else if h == "set" {
+                let (a, b) = uf_set(&acts[i])?;
+                let (x, y) = (var(&a)?, var(&b)?);
+                actions.push(format!("UUnion {x} {y}"));
+                i += 1;
+            } else {
+                return None;
+            }
+        }
+        out.push(format!("mkU [{}] [{}] [{}]", atoms.join("; "), eqs.join("; "), actions.join("; ")));
+    }
+    Some(out)
+}
+
 fn record(viols: &mut Vec<Viol>, v: Viol) {
     if let Ok(mut f) = FOUND.lock() {
         f.push(serde_json::json!({"what": v.what, "key": v.key, "input": v.input}));
@@ -1140,6 +1446,13 @@ fn class_vector(probes: &[Pat], nfacts_membership: usize, facts: &[bool]) -> Vec
     cls
 }
 
+fn rule_cmd_coq(c: &Cmd) -> String {
+    match c {
+        Cmd::Run(n) => format!("URun {n}"),
+        other => format!("UC ({})", cons_cmd_coq(other)),
+    }
+}
+
 fn cons_cmd_coq(c: &Cmd) -> String {
     match c {
         Cmd::Act(Action::Expr(t)) => format!("CAdd ({})", Program::term_coq(t)),
@@ -1153,6 +1466,7 @@ fn main() {
     let mut ncases: Option<usize> = None;
     let mut nfiles: Option<usize> = None;
     let mut ncons: Option<usize> = None;
+    let mut nrules: Option<usize> = None;
     let mut with_delete = false;
     let mut i = 0;
     while i < o.extra.len() {
@@ -1166,6 +1480,10 @@ fn main() {
                 i += 1;
             }
             "--with-delete" => with_delete = true,
+            "--rules" => {
+                nrules = Some(o.extra[i + 1].parse().unwrap());
+                i += 1;
+            }
             "--cons" => {
                 ncons = Some(o.extra[i + 1].parse().unwrap());
                 i += 1;
@@ -1176,12 +1494,15 @@ fn main() {
     }
     let ncases = ncases.unwrap_or(if o.thorough { 2500 } else { 110 });
     let ncons = ncons.unwrap_or(if o.thorough { 3000 } else { 160 });
-    std::panic::set_hook(Box::new(|_| {}));
+    let nrules = nrules.unwrap_or(if o.thorough { 2000 } else { 120 });
+    if std::env::var("VERIF_PANIC_MSG").is_err() {
+        std::panic::set_hook(Box::new(|_| {}));
+    }
     start_watchdog(o.out.clone(), if o.thorough { 600 } else { 180 });
     let repo = std::env::var("VERIF_REPO").unwrap_or_else(|_| "/repo".to_string());
 
-    let header = "From Coq Require Import List ZArith NArith.\nImport ListNotations.\nRequire Import Verif.Base.Cases Verif.Egg.Model Verif.Encoding.Datalog Verif.Encoding.Templates Verif.Encoding.EncOk.\n";
-    let mut w = CaseWriter::new(&o.out, "cases_modes", header, "check_case2", 40);
+    let header = "From Coq Require Import List ZArith NArith.\nImport ListNotations.\nRequire Import Verif.Base.Cases Verif.Egg.Model Verif.Egg.Rules Verif.Encoding.Datalog Verif.Encoding.Templates Verif.Encoding.EncOk Verif.Encoding.URules.\n";
+    let mut w = CaseWriter::new(&o.out, "cases_modes", header, "check_any", 40);
     let mut viols: Vec<Viol> = Vec::new();
     let mut distinct: HashSet<String> = HashSet::new();
     let mut nontrivial = 0usize;
@@ -1198,6 +1519,8 @@ fn main() {
     let mut cons_nontrivial = 0usize;
     let mut enc_rules_emitted = 0usize;
     let mut corpus_sessions = 0usize;
+    let mut user_rules_emitted = 0usize;
+    let mut rule_nontrivial = 0usize;
 
     let mut handle = |s: &Session, tag: String, do_reprint: bool, w: &mut CaseWriter, viols: &mut Vec<Viol>| {
         let (probes, facts) = probe_facts(&s.p, if s.cons_cmds.is_some() { 12 } else { 9 });
@@ -1225,10 +1548,33 @@ fn main() {
             if r.term_facts.len() == facts.len() && r.viol.is_none() {
                 let cls = class_vector(&probes, probes.len(), &r.term_facts);
                 let merged = cls.iter().enumerate().any(|(i, c)| *c >= 0 && *c != i as i64);
-                if merged && fresh {
+                if merged && fresh && s.rules.is_empty() {
                     cons_nontrivial += 1;
                 }
                 let arities = coq_list(&s.p.decls, |d| coq_list(&d.args, |a| if *a == Sort::S { "true".to_string() } else { "false".to_string() }));
+                if !s.rules.is_empty() {
+                    // user-rule case: source rules, the rules the real encoder emitted for them
+                    let emitted = match encoded_user_rules_coq(&s.p, &s.header) {
+                        Some(rs) => {
+                            user_rules_emitted += rs.len();
+                            format!("[{}]", rs.join("; "))
+                        }
+                        // shape not recognised: the length check of check_rcase fails, the link is reported broken
+                        None => "[]".to_string(),
+                    };
+                    if merged && fresh {
+                        rule_nontrivial += 1;
+                    }
+                    w.push(format!(
+                        "(CRule (mkRCase {} {} {} {} {} {}))",
+                        arities,
+                        coq_list(&s.rules, |r| format!("Verif.Egg.Rules.mkRule {} {}", coq_list(&r.body, Program::fact_coq), coq_list(&r.head, Program::action_coq))),
+                        emitted,
+                        coq_list(cs, rule_cmd_coq),
+                        coq_list(&probes, Program::term_coq),
+                        coq_list(&cls, |z| coq_z(*z)),
+                    ));
+                } else {
                 let rules = match encoded_rules_coq(&s.p, &s.header) {
                     Some((r, sub)) => {
                         enc_rules_emitted += 1;
@@ -1239,15 +1585,16 @@ fn main() {
                     None => "None (Some [])".to_string(),
                 };
                 w.push(format!(
-                    "(mkCase2 (mkCase {} {} {} {}) {})",
+                    "(CModel (mkCase2 (mkCase {} {} {} {}) {}))",
                     arities,
                     coq_list(cs, cons_cmd_coq),
                     coq_list(&probes, Program::term_coq),
                     coq_list(&cls, |z| coq_z(*z)),
                     rules
                 ));
+                }
             } else {
-                w.push("(mkCase2 (mkCase [] [] [] []) None None)".to_string());
+                w.push("(CModel (mkCase2 (mkCase [] [] [] []) None None))".to_string());
             }
         }
         if let Some(v) = r.viol {
@@ -1267,7 +1614,7 @@ fn main() {
             }
         } else {
             let strs = |k: &str| -> Vec<String> { inp[k].as_array().map(|a| a.iter().map(|s| s.as_str().unwrap_or("").to_string()).collect()).unwrap_or_default() };
-            let s = Session { p: Program { decls: vec![], cmds: vec![], expect: vec![] }, header: strs("header"), kinds: strs("cmds").iter().map(|_| "replay").collect(), cmds: strs("cmds"), cons_cmds: None };
+            let s = Session { p: Program { decls: vec![], cmds: vec![], expect: vec![] }, header: strs("header"), kinds: strs("cmds").iter().map(|_| "replay").collect(), cmds: strs("cmds"), cons_cmds: None, rules: vec![] };
             let facts: Vec<String> = strs("facts");
             let r = run_session(&s, &facts, true, &mut BTreeMap::new());
             if let Some(v) = r.viol {
@@ -1283,7 +1630,7 @@ fn main() {
             for pth in paths {
                 let v: serde_json::Value = serde_json::from_str(&std::fs::read_to_string(&pth).unwrap()).expect("corpus json");
                 let strs = |k: &str| -> Vec<String> { v[k].as_array().map(|a| a.iter().map(|s| s.as_str().unwrap_or("").to_string()).collect()).unwrap_or_default() };
-                let s = Session { p: Program { decls: vec![], cmds: vec![], expect: vec![] }, header: strs("header"), kinds: strs("cmds").iter().map(|_| "corpus").collect(), cmds: strs("cmds"), cons_cmds: None };
+                let s = Session { p: Program { decls: vec![], cmds: vec![], expect: vec![] }, header: strs("header"), kinds: strs("cmds").iter().map(|_| "corpus").collect(), cmds: strs("cmds"), cons_cmds: None, rules: vec![] };
                 let facts = strs("facts");
                 let r = run_session(&s, &facts, true, &mut BTreeMap::new());
                 corpus_sessions += 1;
@@ -1300,6 +1647,12 @@ fn main() {
             let mut r = Rng::for_case(o.seed ^ 0xC0115, ci as u64);
             let s = gen_cons_session(&mut r);
             handle(&s, format!("cons seed={} case={}", o.seed, ci), ci % 4 == 0, &mut w, &mut viols);
+        }
+        // 1b. rule sessions (cases for the encoded user-rule model)
+        for ci in 0..nrules {
+            let mut r = Rng::for_case(o.seed ^ 0xC011E, ci as u64);
+            let s = gen_rule_session(&mut r);
+            handle(&s, format!("rules seed={} case={}", o.seed, ci), ci % 4 == 0, &mut w, &mut viols);
         }
         // 2. general sessions in the supported fragment
         for ci in 0..ncases {
@@ -1359,7 +1712,7 @@ fn main() {
         "sub": "modes",
         "cases": sessions + corpus_sessions + files_run.len(),
         "shards": w.shards,
-        "distinct_nontrivial": nontrivial + cons_nontrivial,
+        "distinct_nontrivial": nontrivial + cons_nontrivial + rule_nontrivial,
         "rule": "seeded random sessions in the fragment accepted by program_supports_proofs (sort + constructors with costs, lattice-merge functions, a relation; inserts, unions, sets, rules, rewrites with and without :subsume, rulesets and schedules, run :until, let-globals, push/pop, subsume/delete, check, fail, print-size, extract), each run command by command on the plain, term-encoding and proofs engines, plus the reprint variant and upstream tests/*.egg; constructor-only sessions additionally become cases for the Gallina model; a general session is non-trivial iff at its end two distinct probe terms (ground terms up to depth 2) are equal on the plain engine; a constructor-only session iff two probe terms ended in one class; distinct by program text",
         "samples": samples,
         "violations": vj,
@@ -1369,7 +1722,7 @@ fn main() {
         "extra_coverage": {
             "commands_succeeded": total_cmds, "commands_failed_same_in_all_modes": total_failed,
             "seconds_plain_term_proofs_reprint": times, "upstream_files_run": files_run, "upstream_files_skipped_slow": files_skipped_slow,
-            "model_cases": w.total, "encoder_rule_sets_compared_with_templates": enc_rules_emitted
+            "model_cases": w.total, "encoder_rule_sets_compared_with_templates": enc_rules_emitted, "encoder_user_rules_compared_with_templates": user_rules_emitted, "rule_sessions_nontrivial": rule_nontrivial
         }
     });
     std::fs::write(o.out.join("impl_report.json"), serde_json::to_string(&rep).unwrap()).unwrap();
